@@ -114,7 +114,7 @@ def moments_worker(idx):
     arm = arms[idx]
     res = dict(stats=dict(paths=0, verdict_queries=0, verdict_unsat=0, verdict_sat=0, solver_s=0.0), violations=[],
                inconclusive=[], samples=[], evaluations=0, nontrivial=0)
-    if arm.nodes_txt is None:
+    if arm.nodes_txt is None or arm.key is None:
         return res
     solver = z3.SolverFor('QF_LRA')
     solver.set('timeout', 60000)
@@ -180,6 +180,34 @@ def replay(rp):
         except AssertionError:
             return rp.get('expect') == 'returns'
         return not well_formed(r)
+    if rp['kind'] == 'lookup-arm':
+        Q = importlib.import_module('src.quadrature_rules')
+        arms, _, _ = tables.parse_rules(report.REPO)
+        key = tuple(rp['args'])
+        for a in arms:
+            ak = a.key if isinstance(a.key, tuple) else (a.key, )
+            if a.family == rp['family'] and ak == key and a.nodes_txt is not None:
+                try:
+                    r = getattr(Q, rp['family'])(*key)
+                except Exception:
+                    return True
+                return ([float(t) for t in a.nodes_txt] != [float(v) for v in r[0]] or
+                        [float(t) for t in a.weights_txt] != [float(v) for v in r[1]])
+        return False
+    if rp['kind'] == 'sequence':
+        # all lookups in file order, then again in reverse: every return value must be its own arm
+        Q = importlib.import_module('src.quadrature_rules')
+        Q = importlib.reload(Q)
+        arms, _, _ = tables.parse_rules(report.REPO)
+        good = [a for a in arms if a.nodes_txt is not None and a.key is not None and a.kind == 'return']
+        for a in good + good[::-1]:
+            try:
+                r = getattr(Q, a.family)(*(a.key if isinstance(a.key, tuple) else (a.key, )))
+            except Exception:
+                return True
+            if [float(t) for t in a.nodes_txt] != [float(v) for v in r[0]] or [float(t) for t in a.weights_txt] != [float(v) for v in r[1]]:
+                return True
+        return False
     if rp['kind'] == 'arm':
         arms, _, _ = tables.parse_rules(report.REPO)
         for a in arms:
@@ -298,10 +326,21 @@ def lookup_worker(fam):
                                               what='%s%r returns %r instead of (nodes, weights)' %
                                               (fam, tuple(args), pr.value), replay=rp, reproduced=replay(rp)))
             else:
-                # the path must be pinned to exactly one key: the model's
-                ok, _ = eng.prove(z3.And([eng.real(nm).z3() == c for nm, c in zip(names, args)]), 'one-key-per-path')
-                if not ok:
-                    res['inconclusive'].append('%s: a returning path is not pinned to a single key' % fam)
+                # every tabulated key this path can be taken with must get its own arm's literals back
+                by_key = {(a.key if pair else (a.key, )): a for a in arms if a.family == fam and a.nodes_txt is not None
+                          and a.key is not None}
+                for kt, arm in by_key.items():
+                    here, _ = eng.feasible(z3.And([eng.real(nm).z3() == c for nm, c in zip(names, kt)]))
+                    if not here:
+                        continue
+                    same = ([float(t) for t in arm.nodes_txt] == [float(v) for v in pr.value[0]] and
+                            [float(t) for t in arm.weights_txt] == [float(v) for v in pr.value[1]])
+                    if not same:
+                        rp = dict(kind='lookup-arm', family=fam, args=list(kt))
+                        res['violations'].append(dict(
+                            signature='lookup-other-rule:%s:%s' % (fam, list(kt)),
+                            what='%s%r returns a %d-point rule that is not the table entry written for that key (%d points)'
+                            % (fam, kt, len(pr.value[0]), len(arm.nodes_txt)), replay=rp, reproduced=replay(rp)))
                 if len(res['samples']) < 1:
                     res['samples'].append(dict(lookup=fam, key=args, points=len(pr.value[0])))
         # exported key lists name only available rules
@@ -323,21 +362,31 @@ def run(out):
     for p in problems:
         out.inconclusive.append('table front end: ' + p)
     Q = importlib.import_module('src.quadrature_rules')
-    # Part B: structure per arm + translator validation (AST literals == what the function returns)
+    # Part B: structure per arm; every lookup returns the literals of its own arm - asked in file order and then in
+    # reverse order (a result must not depend on which rule was requested before)
     for a in arms:
         out.coverage['evaluations'] += 1
-        probs = arm_problems(a)
-        args = a.key if isinstance(a.key, tuple) else (a.key, )
-        if a.kind == 'return' and a.nodes_txt is not None:
-            try:
-                r = getattr(Q, a.family)(*args)
-                if [float(t) for t in a.nodes_txt] != list(r[0]) or [float(t) for t in a.weights_txt] != list(r[1]):
-                    out.inconclusive.append('table front end disagrees with the executed function for %r' % a)
-            except Exception as e:
-                probs.append('lookup raises %r' % e)
-        for p in probs:
+        for p in arm_problems(a):
             rp = dict(kind='arm', family=a.family, key=a.key)
             out.violation('arm:%s:%s' % (a.family, a.key), '%s%r (line %d): %s' % (a.family, a.key, a.lineno, p), rp)
+        if a.key is None:
+            out.notes.append('arm at line %d of %s has a condition that is not `key == literal`; its literals are only '
+                             'checked through the symbolic-key lookups' % (a.lineno, a.family))
+    good = [a for a in arms if a.kind == 'return' and a.nodes_txt is not None and a.key is not None]
+    for a in good + good[::-1]:
+        args = a.key if isinstance(a.key, tuple) else (a.key, )
+        try:
+            r = getattr(Q, a.family)(*args)
+            same = ([float(t) for t in a.nodes_txt] == [float(v) for v in r[0]] and
+                    [float(t) for t in a.weights_txt] == [float(v) for v in r[1]])
+        except Exception as e:
+            same = False
+        if not same:
+            rp = dict(kind='sequence', family=a.family, key=a.key)
+            out.violation('lookup-sequence:%s' % a.family, '%s%r does not return the literals of its table entry when the '
+                          'lookups are requested one after the other (state shared between rule families / calls?)' %
+                          (a.family, a.key), rp, reproduced=replay(rp))
+            break
     # Part A: symbolic keys
     results = report.pmap('checks.c05', 'lookup_worker', tables.FAMILIES)
     for f, r in zip(tables.FAMILIES, results):
